@@ -126,6 +126,11 @@ def work(job):
             res["counters"]["trees_with_near_grammar_statements"] = 1
         if use_cache is not False and rnd.random() < 0.3 and t.existing:
             lock = core.lock_text(max(t.existing) + 1 + rnd.choice([0, 5]))
+        elif use_cache is not False and rnd.random() < 0.25 and t.existing:
+            # a lock that is behind the code (kept from an older branch while statements with higher IDs were merged in): its value is
+            # an ID some statement already carries, one below / above such an ID, or 1
+            lock = core.lock_text(max(1, min(4294960000, rnd.choice(t.existing) + rnd.choice([0, 0, 0, 1, -1]))) if rnd.random() < 0.8 else 1)
+            res["counters"]["trees_with_a_lock_behind_the_code"] = 1
     elif kind == "manyfiles":
         # many files updated by one run under a low descriptor limit (resources taken per file must be given back per file)
         files = {}
